@@ -13,7 +13,7 @@ def WOp.iovTarget : WOp → Option Nat
   | .push i _ | .pushBorrowed i _ | .pushCopy i _ | .register i _ | .extend i _ | .consume i _
   | .advance i _ | .read i _ | .reserve i _ | .pushASlice i _ | .swapArena i _ | .backfill i _ _
   | .pop i | .clear i | .take i | .clone i | .drop i | .flush i | .takeArena i
-  | .readNIov i _ _ _ _ => some i
+  | .readNIov i _ _ _ _ | .pushAt i _ _ _ | .pushBorrowedAt i _ _ _ => some i
   | _ => none
 
 theorem iov_lt_of_some {w : World} {j : Nat} {v : Iov} (h : w.iov j = some v) : j < w.iovs.length := by
@@ -333,6 +333,19 @@ theorem step_frame_iov_eq {w w' : World} {op : WOp} (h : w.step op = some w') {j
       cases res with
       | ok a => simp at h; subst h; simp
       | error k => simp at h; subst h; simp
+  | lend bs => simp [World.step] at h; subst h; simp
+  | pushAt i b off len =>
+    have hji : j ≠ i := by intro e; apply hj; simp [WOp.iovTarget, e]
+    simp only [World.step] at h
+    split at h
+    · exact push_frame h hji
+    · simp at h
+  | pushBorrowedAt i b off len =>
+    have hji : j ≠ i := by intro e; apply hj; simp [WOp.iovTarget, e]
+    simp only [World.step] at h
+    split at h
+    · exact pushBorrowed_frame h hji
+    · simp at h
 
 theorem backfill_congr {w1 w2 : World} {i1 i2 : Nat} (hiov : w1.iov i1 = w2.iov i2) (hheap : w1.heap = w2.heap)
     (b : Backref) (src : List UInt8) :
